@@ -54,6 +54,7 @@ def run(prog, chk):
     limit_errors_final(prog, chk)
     limits_wiring(prog, chk)
     scope_var_limit(prog, chk)
+    depth_test_unconditional(prog, chk)
 
 
 # ---------------------------------------------------------------------------
@@ -634,3 +635,26 @@ def scope_var_limit(prog, chk):
             errs = R.constructs_variant(body, body.reachable, "svgdx::errors::SvgdxError", "VarLimitError")
             chk.ob(bool(reads) and errs, "A7.scope-var-limit", key, body.where(bb, t.get("line")), "the evaluated attributes that become variables of the new scope are tested against var_limit first", f"{body.short} evaluates the element's attributes and makes them variables of a new scope without testing them against var_limit: a recursive <reuse> whose attribute mentions itself twice doubles the value at every level (memory exhaustion long before the depth limit)")
     chk.floor("A7.scope-var-limit", n, 2, "push_element call site")
+
+
+def depth_test_unconditional(prog, chk):
+    """inc_depth(): the comparison with depth_limit is made on every call - it is not guarded by any other condition
+    (not skipped inside <specs>, for particular element kinds, ...)"""
+    b = prog.body("svgdx::context::TransformerContext::inc_depth")
+    chk.touch(b)
+    cmp_blocks = []
+    for x, i, st in b.all_stmts():
+        rv = st.get("rv")
+        if rv and rv.get("k") == "binop" and rv.get("op") in ("Gt", "Ge", "Lt", "Le"):
+            for sd in ("a", "b"):
+                pl = op_place(rv[sd])
+                if pl is not None:
+                    ch = b.chase(rv[sd])
+                    if ch[0] == "place" and ch[1][1] and ch[1][1][-1] == ".depth_limit":
+                        cmp_blocks.append(x)
+    if not cmp_blocks:
+        chk.anchor_missing("A7.depth-unconditional", "inc_depth: comparison with depth_limit not found")
+        return
+    from sa import discharge as D
+    guarded = [a for x in cmp_blocks for (a, tgt) in D.dominating_edges(b, x) if b.term(a)["k"] == "switch"]
+    chk.ob(not guarded, "A7.depth-unconditional", "inc_depth", b.where(cmp_blocks[0]), "the depth test is evaluated on every call of inc_depth()", "the depth test in inc_depth() is evaluated only under another condition: nesting / reuse recursion in the exempted situation (e.g. inside <specs>) is unbounded and overflows the stack instead of being rejected")
